@@ -767,9 +767,9 @@ func (g *Gen) funcLike(kind fkind, name string) *Node {
 	sc := g.push(true)
 	sc.paramSet = map[string]bool{}
 	sc.patParam = map[string]bool{}
-	if kind == fkExpr && name != "" {
-		// the function expression's own name: an immutable binding, never an assignment target
-		// (listed known finding C02-funcname-assign-stack-leak: the ignored sloppy assignment leaks a stack slot)
+	if kind == fkExpr && name != "" && g.chance(70) {
+		// the function expression's own name: an immutable binding, rarely an assignment target
+		// (C02-funcname-assign-stack-leak, fixed in d6510f1: the ignored sloppy assignment leaked a stack slot)
 		sc.binds = append(sc.binds, &gbind{name: name, kind: "func", holds: hFunc, protect: true})
 	}
 
